@@ -38,6 +38,7 @@ type QSpec struct {
 	Opt     int      `json:"opt"`
 	DO      bool     `json:"do,omitempty"`
 	Version uint8    `json:"version,omitempty"`
+	ZBits   uint16   `json:"zbits,omitempty"` // reserved EDNS flag bits (below DO) the client sets
 	Options []string `json:"options,omitempty"`
 	// Shape: "" well-formed; malformed shapes: qr, noq, 2q, ans, ns, 2extra;
 	// "extraA" is well-formed with one non-OPT additional record.
@@ -81,6 +82,7 @@ func (q QSpec) Msg() *dns.Msg {
 			o.SetDo()
 		}
 		o.SetVersion(q.Version)
+		o.Hdr.Ttl |= uint32(q.ZBits & 0x7FFF)
 		for _, n := range q.Options {
 			o.Option = append(o.Option, MkOption(n, false))
 		}
